@@ -10,6 +10,27 @@ TRUST = ("Trusted: Go type checker and go/ssa (x/tools v0.29.0), CHA/VTA call gr
 
 # id -> (technique, level text, design ref)   -- only properties whose check exists are listed here
 CLAIMS = {
+    "C03": ("sibling comparison (engine E7: fact sets over a bisimulation-style partition refinement of the SSA def-use graphs) of Optimal and Minimize; dominance analysis of the model snapshot; guard->constant tables of the results; linear-form check of the strengthening step (degree = maxCost - cost + 1, cost over true cost literals, stop at 0)",
+            "Decides that both optimisation entry points compute the same strengthening constraint from the same quantities, that this constraint is the stated one, that results are built from the snapshot the cost was computed on, and that the constant results are returned under the stated conditions. Necessary conditions; optimality itself is not decided.",
+            "DESIGN.md section 5, C03"),
+    "C05": ("sibling comparison (engine E7) of Enumerate and CountModels including the 2^k counts; non-emptiness evidence for every last-element access reachable from them (dominating length tests, call-site guards)",
+            "Decides that counting and enumeration perform the same blocking step and that the trail/decision accesses they reach cannot index an empty slice. Necessary conditions; exactness of the count is not decided.",
+            "DESIGN.md section 5, C05"),
+    "C11": ("type-flow analysis over go/ssa for dispatch exhaustiveness (every Formula type handled wherever formulas are switched on); identity/absorbing-element check of the n-ary connectives' constant folding against Eval; duality table of not.nnf; symbolic truth-table evaluation of the derived connectives' syntax trees; guard-coverage check of the definitional CNF",
+            "Decides structural clauses of the formula translation: exhaustive dispatch, right neutral elements (empty And/Or), De Morgan duality, truth tables of Implies/Eq/Xor, every clause of a guarded conjunct carries the guard. Necessary conditions; the exactly-one encoding and the translation as a whole are not decided.",
+            "DESIGN.md section 5, C11"),
+    "C12": ("def-use analysis over go/ssa of the DIMACS exporter: header variable count = size of the map every handed-out index is recorded in, header clause count = length of the slice written one line per element; plus the translation rules of C11",
+            "Decides well-formedness clauses of the export (header counts, every literal from the index allocator) and the translation clauses shared with C11. Model equivalence is not decided.",
+            "DESIGN.md section 5, C12"),
+    "C17": ("table extraction from the recursive-descent parser (AST + types + SSA dominance): operator token, constructor, left/right operand callee per level, ordered by the call chain from Parse; end-of-input dominance check; error=>nil-formula fixpoint over the parser methods",
+            "Decides the precedence/associativity table against the documented grammar, that a formula is returned only at end of input, and that an error never comes with a formula. Tokenisation and behaviour on every corrupted text are not decided.",
+            "DESIGN.md section 5, C17"),
+    "C18": ("abstract string templates over go/ssa for every printer: separator analysis of loop-emitted items, header count = number of lines written, printer tokens included in parser tokens",
+            "Decides lexical well-formedness of what the printers emit (whitespace between items, header counts, tokens the parsers accept). Equality of models and costs after re-parsing is not decided.",
+            "DESIGN.md section 5, C18"),
+    "C19": ("table extraction from main.go over go/ssa: suffix->parser/printer dispatch, status->answer-line tables by constant propagation of solver.Status, error-edge->non-zero-exit path analysis, argument types of stdout prints, drain analysis of result channels",
+            "Decides the glue tables of the command line tool (dispatch, answer lines per status, error exits without answer line, no struct dumps, channels drained). Truthfulness of what is printed rests on the other properties.",
+            "DESIGN.md section 5, C19"),
     "C04": ("path-sensitive typestate over go/ssa (raw/trimmed result cells refined by Status tests) for every Interface.Optimal wrapper; path-sensitive symbolic check of the relaxation built by maxsat.New (nil-ness of coefficient slice, degree facts); control-dependence check of the projection filter",
             "Decides on every path that results of the inner solver leave the MaxSAT solver only with the relaxation variables cut off, that a soft constraint's blocking literal gets the degree as coefficient, and that only named variables enter the returned model. Necessary conditions; minimality of the cost is not decided.",
             "DESIGN.md section 5, C04"),
